@@ -27,6 +27,9 @@ mod range;
 mod select;
 mod truncate;
 
+#[cfg(plonk_verif)]
+mod verif_hooks;
+
 #[cfg(test)]
 mod tests;
 
